@@ -49,6 +49,11 @@ CHECKS = {
          "Every history TLC emits is run in its own interpreter through run_pdb2pqr; the digest of the PQR bytes (or the exception class) of each run is recorded and TLC requires the outcome to be a function of the configuration across positions, histories, processes and hash seeds; configurations include same --ff with different --usernames, two user force fields, an input needing multi-atom repair, failing runs and a PROPKA run.",
          "Hash seeds and (in quick) histories of length 3 are sampled; nine configurations; verdict on output bytes only.",
          "DESIGN.md 6/C11", ["History", "HistoryTrace"]),
+ "C13": ("model_checking",
+         "TLA+ spec SSBridge (pair scan with its skip shortcut + resolution): TLC exhaustive over all within-limit graphs on <= 5 cysteines; every graph realised geometrically and run through the pipeline in several file orders, chain-id assignments and option sets; TLC trace validation (SSBridgeTrace) of partner/CYX/HG per cysteine",
+         "TLC checks on the scan model that every mutually exclusive pair ends bonded symmetrically and every isolated cysteine free, for all graphs in the bound and in scan order; each graph is realised with real coordinates (ALA-CYS-ALA chains placed rigidly, relation recomputed from the written file), run end to end, and the observed ss_bonded partner, CYX naming and HG presence are judged by TLC; axis-parallel pairs at 2.0..2.6 A across grid lines cover distances around the limit in any frame.",
+         "Geometric realisation uses a 0.25 A margin except for the explicit border cases; quick covers N <= 4 (half of the 4-graphs) and two file orders; chain placement and projection are harness code.",
+         "DESIGN.md 6/C13", ["SSBridge", "SSBridgeTrace"]),
 }
 
 NOT_YET = "check not built yet (build round in progress); planned per DESIGN.md section 6"
